@@ -424,7 +424,9 @@ def _apply_wiring(ctx):
     ok = toff_call is not None
     if ok:
         kws = {kw.arg: ast.unparse(kw.value) for kw in toff_call.keywords}
-        ok = kws.get("wave_vector") == kvec and kws.get("time_step_duration") == "self._config.time_step_duration"
+        tsd = kws.get("time_step_duration", "")
+        tsd_src = tsd if "time_step_duration" in tsd else " ".join(ast.unparse(d[1]) for d in defs.get(tsd, []))  # directly, or through a local name
+        ok = kws.get("wave_vector") == kvec and "time_step_duration" in tsd_src
     ctx.ob("R13.5", "LinearlyPolarizedPlaneSource.apply:time-offsets", ok and toff_names == [ntE, ntH] and None not in (ntE, ntH), "the Yee time offsets are computed with the same wave vector as the polarisation pair and stored E with E, H with H", {"call": ok, "computed": toff_names, "stored": [ntE, ntH]}, "same wave vector; (E, H) order kept")
 
 
